@@ -8,6 +8,7 @@
 package c09
 
 import (
+	"sync/atomic"
 	"bytes"
 	"encoding/json"
 	"fmt"
@@ -435,9 +436,25 @@ type schedCase struct {
 	Seed    int64    `json:"seed"`
 }
 
+// handoffs counts pooled objects that were returned by one caller and handed to ANOTHER caller (evidence that the
+// explored schedules really make callers share pool objects; a run without any is vacuous for the pool hazard).
+var handoffs, handoffExecs atomic.Int64
+
 func install(e *sched.Exec) {
 	vsync.DrainAll()
+	lastPut := map[any]int{}
+	seen := false
 	vsync.SetHooks(&vsync.Hooks{
+		OnPut: func(p *vsync.Pool, x any) { lastPut[x] = e.Current() },
+		OnGet: func(p *vsync.Pool, x any, fresh bool) {
+			if by, ok := lastPut[x]; ok && !fresh && by != e.Current() {
+				handoffs.Add(1)
+				if !seen {
+					seen = true
+					handoffExecs.Add(1)
+				}
+			}
+		},
 		BeforeGet: func(p *vsync.Pool, n int) int {
 			e.Yield("pool.Get")
 			// option 0: most recently returned object (or fresh when empty); other options: each other pooled object, then fresh
@@ -686,7 +703,9 @@ func run(c *vf.Ctx) {
 	schedules(c, shapes)
 	// (c)
 	racePass(c)
-	c.RequireFeature("purity_bundles_valid", "purity_bundles_invalid", "schedules_explored", "race_pass_runs")
+	c.Count("pool_objects_handed_from_one_caller_to_another", handoffs.Load())
+	c.Count("schedules_with_a_pool_object_shared_between_callers", handoffExecs.Load())
+	c.RequireFeature("purity_bundles_valid", "purity_bundles_invalid", "schedules_explored", "race_pass_runs", "pool_objects_handed_from_one_caller_to_another")
 	c.Sample(schedCase{Shape: "v2 block with input, revision and resolution", Callers: []string{"ValidateBlock", "ApplyBlock"}, Choices: []int{0, 0, 1, 0, 0, 2}, Seed: c.Seed})
 	c.Assume("interleavings are explored at synchronisation operations (sync.Pool Get/Put) under sequential consistency; unsynchronised accesses are delegated to the free-running race-detector pass, which is a detector, not an exhaustive explorer")
 }
